@@ -1,4 +1,4 @@
 SPECIFICATION TraceSpec
-INVARIANT I15
+INVARIANT J15
 POSTCONDITION TraceAccepted
 CHECK_DEADLOCK FALSE
